@@ -90,6 +90,66 @@ def all_run_gates(sk) -> list[str]:
     return out
 
 
+PRE_KINDS = ("none", "ok", "err", "torn")
+PRE_MODEL = {"none": (False, "absent"), "ok": (True, "ok"), "err": (True, "err"), "torn": (True, "trunc")}
+
+
+def norm_pre(pre) -> str:
+    return {False: "none", True: "ok"}.get(pre, pre)
+
+
+def make_pre(zy, spec: dict, pre: str):
+    """put the pre-existing result on disk: nothing / complete ok / complete ERRORED / torn (a strict prefix)"""
+    pre = norm_pre(pre)
+    if pre == "none":
+        return
+    ctl = Path(spec["ctl"])
+    if pre == "err":
+        (ctl / "fail").touch()
+    r = zy.run({**spec, "env": {}, "hooks": None})
+    if pre == "err":
+        (ctl / "fail").unlink()
+    want = "ValueError" if pre == "err" else "ok"
+    if r["hang"] or (r["report"] or {}).get("outcome") != want:
+        raise core.Infra(f"could not create the pre-existing {pre} result: {r}")
+    if pre == "torn":
+        f = Path(spec["cache"]) / jp.checksum(spec) / "_result.pklz"
+        data = f.read_bytes()
+        f.write_bytes(data[: len(data) // 2])
+    for name in ("execs.log", "hooks.log", "hooks_pid.log"):
+        if (ctl / name).exists():
+            (ctl / name).unlink()
+
+
+def pre_lock_load(sk) -> bool:
+    """does the skeleton load the cached result BEFORE taking the job lock? (decides what a blocked submitter has
+    done by the time it blocks; read off the regenerated skeleton tree)"""
+    if sk is None:
+        return False
+    for a in job_skeleton.flatten(sk["run"]):
+        if a == ("acq", "job"):
+            return False
+        if a == ("act", "loadResult"):
+            return True
+    return False
+
+
+class Budget:
+    """wall-clock budget of the behavioural part: when it is used up the remaining cases are skipped (noted in the
+    evidence), so that the check ends promptly whatever the tree does"""
+
+    def __init__(self, seconds: float):
+        self.deadline = time.time() + seconds
+
+    def left(self) -> float:
+        return self.deadline - time.time()
+
+    def watchdog(self) -> float:
+        # a single wait always gets the full watchdog (cutting it short on a loaded machine would turn slowness into a
+        # false "stuck"); the budget bounds HOW MANY cases are started, and at most MAX_STUCK replays may get stuck
+        return jp.WATCHDOG
+
+
 class Mismatch(Exception):
     """the real processes did not behave as the gating protocol expects (reported as a broken tie / violation)"""
 
@@ -97,19 +157,17 @@ class Mismatch(Exception):
 class Replay:
     """drives n real submitters through an interleaving"""
 
-    def __init__(self, ctx, zy, n: int, pre: bool, gates: list[str], num: int):
+    def __init__(self, ctx, zy, n: int, pre, gates: list[str], num: int, budget: "Budget", pre_load: bool):
         self.ctx, self.zy, self.n, self.gates = ctx, zy, n, gates
+        self.budget, self.pre_load = budget, pre_load
         self.base = ctx.scratch / f"il{num}"
         for d in ("ctl", "cache", "v"):
             (self.base / d).mkdir(parents=True)
-        self.spec = {"task": "py", "x": 1, "ctl": str(self.base / "ctl"), "cache": str(self.base / "cache"), "worker": "debug"}
+        self.spec = {"task": "py", "x": 1, "ctl": str(self.base / "ctl"), "cache": str(self.base / "cache"), "worker": "debug",
+                     "hooks": "count"}  # fmt: skip
         self.G = jp.Gates(self.base / "v")
-        self.pre = pre
-        if pre:
-            r = zy.run({**self.spec, "env": {}})
-            if r["hang"] or (r["report"] or {}).get("outcome") != "ok":
-                raise core.Infra(f"could not create the pre-existing result: {r}")
-            Path(self.spec["ctl"], "execs.log").unlink()
+        self.pre = norm_pre(pre)
+        make_pre(zy, self.spec, self.pre)
         self.G.gate(*gates)
         self.h: dict[int, dict] = {}  # index -> zygote handle
         self.state: dict[int, str] = {}  # index -> "blocked" | "waiting:<point>" | "ended"
@@ -123,9 +181,10 @@ class Replay:
     def _finished(self, i: int) -> bool:
         return Path(self.h[i]["out"]).exists()
 
-    def _await(self, i: int, timeout=jp.WATCHDOG):
+    def _await(self, i: int, timeout=None):
         """wait until submitter i waits at a gate (-> point) or has finished (-> None)"""
         pid = self.h[i]["pid"]
+        timeout = self.budget.watchdog() if timeout is None else timeout
         deadline = time.time() + timeout
         while time.time() < deadline:
             for tag in self.G.waiting():
@@ -139,7 +198,7 @@ class Replay:
         raise Mismatch(f"submitter {i} neither reached a gate nor finished within {timeout:.0f} s")
 
     def _collect(self, i: int):
-        r = self.zy.wait(self.h[i], jp.WATCHDOG)
+        r = self.zy.wait(self.h[i], self.budget.watchdog())
         self.results[i] = r
         self.state[i] = "ended"
 
@@ -157,7 +216,7 @@ class Replay:
         blocked = [i for i, s in self.state.items() if s == "blocked"]
         if not blocked:
             return
-        deadline = time.time() + jp.WATCHDOG
+        deadline = time.time() + self.budget.watchdog()
         while time.time() < deadline:
             for i in blocked:
                 pid = self.h[i]["pid"]
@@ -191,7 +250,30 @@ class Replay:
                 self.holder = i
         else:
             self.state[i] = "blocked"  # the lock is held by a submitter that waits at a gate
+            if self.pre_load:
+                self._await_prelock(i)
         self._log()
+
+    def _await_prelock(self, i: int):
+        """the regenerated skeleton loads the result before taking the lock: wait (on the event log, not on time)
+        until submitter i has got there; if the result on disk is complete and good (the lock holder stands still at
+        a gate, so the file is stable) the submitter returns through that fast path: wait for its exit"""
+        pid = self.h[i]["pid"]
+        deadline = time.time() + self.budget.watchdog()
+        log = self.base / "v" / "events.log"
+        res = Path(self.spec["cache"]) / jp.checksum(self.spec) / "_result.pklz"
+        while time.time() < deadline:
+            seen = log.exists() and any(line.startswith(f"{pid} load_result") for line in log.read_text().splitlines())
+            if seen or self._finished(i):
+                if self._finished(i) or jp._file_state(res, "result") == "ok":
+                    while not self._finished(i) and time.time() < deadline:
+                        time.sleep(0.003)
+                    if not self._finished(i):
+                        raise Mismatch(f"submitter {i} found a good result before the lock but did not return")
+                    self._collect(i)
+                return
+            time.sleep(0.003)
+        raise Mismatch(f"submitter {i} did not reach its pre-lock load of the result")
 
     def release(self, i: int):
         was = self.state[i]
@@ -240,19 +322,24 @@ class Replay:
         shutil.rmtree(self.base, ignore_errors=True)
 
 
-def run_interleaving(ctx, zy, case: dict, num: int) -> dict:
-    """case = {"n", "pre", "gates", "plan": [("start"|"step", …)] or None (random from case["seed"])}"""
+def run_interleaving(ctx, zy, case: dict, num: int, budget: Budget, pre_load: bool) -> dict:
+    """case = {"n", "pre", "gates", "plan": "random" (from case["seed"]) | "burst"}.  "burst": every later submitter
+    starts — and gets as far as it can without the lock — while the first one waits at its first hook point, i.e.
+    before the first one has populated the job directory; then the submitters are stepped to the end."""
     import random
 
     rng = random.Random(case["seed"])
-    rp = Replay(ctx, zy, case["n"], case["pre"], case["gates"], num)
+    rp = Replay(ctx, zy, case["n"], case["pre"], case["gates"], num, budget, pre_load)
     err = None
     try:
         to_start = list(range(case["n"]))
-        budget = case.get("steps", 40)
+        steps = case.get("steps", 40)
         rp.start(to_start.pop(0))
-        while to_start and budget > 0:
-            budget -= 1
+        if case.get("plan") == "burst":
+            while to_start:
+                rp.start(to_start.pop(0))
+        while to_start and steps > 0:
+            steps -= 1
             w = rp.waiting()
             if to_start and (not w or rng.random() < 0.45):
                 rp.start(to_start.pop(0))
@@ -263,15 +350,15 @@ def run_interleaving(ctx, zy, case: dict, num: int) -> dict:
         rp.finish()
     except Mismatch as e:
         err = str(e)
-    obs = rp.observe() if err is None else {"mismatch": err, "state": dict(rp.state)}
+    obs = rp.observe() if err is None else {"outcome": "stuck", "mismatch": err, "state": dict(rp.state)}
     out = {"events": rp.events, "status": rp.status_log, "obs": obs, "mismatch": err}
     rp.cleanup()
     return out
 
 
 def model_query(case: dict, run: dict) -> dict:
-    return {"op": "interleave", "prog": "run", "n": case["n"], "dir": bool(case["pre"]), "result": "ok" if case["pre"] else "absent",
-            "gates": case["gates"], "events": run["events"]}  # fmt: skip
+    d, r = PRE_MODEL[norm_pre(case["pre"])]
+    return {"op": "interleave", "prog": "run", "n": case["n"], "dir": d, "result": r, "gates": case["gates"], "events": run["events"]}
 
 
 def compare_views(case, run, ans):
@@ -294,9 +381,9 @@ def compare_views(case, run, ans):
     return impl, model
 
 
-def once_ok(pre: bool, obs: dict, n: int) -> tuple[bool, str]:
+def once_ok(pre, obs: dict, n: int) -> tuple[bool, str]:
     exp = jp.expected_outputs({"task": "py", "x": 1})
-    want = 0 if pre else 1
+    want = 0 if norm_pre(pre) == "ok" else 1  # an errored or torn result is not served: exactly one execution
     if obs["execs"] != want:
         return False, f"the task body ran {obs['execs']} times for {n} submitters (expected {want})"
     for i, s in enumerate(obs["submitters"]):
@@ -313,27 +400,30 @@ def once_ok(pre: bool, obs: dict, n: int) -> tuple[bool, str]:
 # ungated races
 
 
-def run_race(ctx, zy, case: dict, num: int) -> dict:
+def run_race(ctx, zy, case: dict, num: int, budget: Budget) -> dict:
     b = ctx.scratch / f"race{num}"
     for d in ("ctl", "cache"):
         (b / d).mkdir(parents=True)
-    spec = {"task": case["task"], "x": 1, "ctl": str(b / "ctl"), "cache": str(b / "cache"), "worker": case["worker"]}
-    if case["pre"]:
-        r = zy.run({**spec, "env": {}})
-        if r["hang"]:
-            raise core.Infra("race: could not create the pre-existing result")
-        for f in (b / "ctl").glob("execs.log"):
-            f.unlink()
+    spec = {"task": case["task"], "x": 1, "ctl": str(b / "ctl"), "cache": str(b / "cache"), "worker": case["worker"], "hooks": "count"}
+    pre = norm_pre(case["pre"])
+    make_pre(zy, spec, pre)
     if case.get("slow"):
         (b / "ctl" / "gate_body").touch()
     hs = [zy.spawn({**spec, "env": {}}) for _ in range(case["n"])]
-    if case.get("slow") and not case["pre"]:
-        # wait (on a file, not on time) until a body has been entered, give the others the chance to contend, let it go
-        deadline = time.time() + jp.WATCHDOG
-        while not (b / "ctl" / "waiting_body").exists() and time.time() < deadline:
+    if case.get("slow"):
+        # wait (on files, not on time) until EVERY submitter has entered `run` (its pre_run hook has logged its pid) or
+        # has finished, and — unless a good result is served — until a body has been entered; then let the body go
+        pids = {str(h["pid"]) for h in hs}
+        deadline = time.time() + budget.watchdog()
+        hp = b / "ctl" / "hooks_pid.log"
+        while time.time() < deadline:
+            seen = {line.split()[0] for line in hp.read_text().splitlines()} if hp.exists() else set()
+            done = {str(h["pid"]) for h in hs if Path(h["out"]).exists()}
+            if pids <= (seen | done) and (pre == "ok" or (b / "ctl" / "waiting_body").exists() or pids <= done):
+                break
             time.sleep(0.003)
     (b / "ctl" / "release_body").touch()
-    rs = [zy.wait(h, jp.WATCHDOG) for h in hs]
+    rs = [zy.wait(h, budget.watchdog()) for h in hs]
     chk = jp.checksum(spec)
     o = jp.observe(spec["cache"], chk, spec["ctl"])
     subs = [{"outcome": ((r["report"] or {}).get("outcome") if not r["hang"] else "hang"), "outputs": (r["report"] or {}).get("outputs"),
@@ -344,7 +434,7 @@ def run_race(ctx, zy, case: dict, num: int) -> dict:
 
 def race_ok(case, obs) -> tuple[bool, str]:
     exp = jp.expected_outputs({"task": case["task"], "x": 1})
-    want = 0 if case["pre"] else 1
+    want = 0 if norm_pre(case["pre"]) == "ok" else 1
     if obs["execs"] != want:
         return False, f"the task body ran {obs['execs']} times for {case['n']} submitters (expected {want})"
     for i, s in enumerate(obs["submitters"]):
@@ -356,48 +446,95 @@ def race_ok(case, obs) -> tuple[bool, str]:
 # ------------------------------------------------------------------------------------------------------------------
 
 
-def gen_cases(ctx, big: bool):
-    sk = jp.safe_skeletons(ctx)
-    allg = all_run_gates(sk) if sk is not None else list(GATES_QUICK)
-    ils = []
-    plan = [(2, False), (2, True), (3, False)] if not big else [(2, False)] * 6 + [(2, True)] * 3 + [(3, False)] * 6 + [(3, True)] * 2 + [(4, False)] * 4
-    for n, pre in plan:
-        gates = GATES_QUICK if (not big or ctx.rng.random() < 0.5) else allg
-        ils.append({"kind": "interleaving", "n": n, "pre": pre, "gates": gates, "seed": ctx.rng.randrange(10**9), "steps": 12 if not big else 40})
-    races = [{"kind": "race", "n": 3, "pre": False, "task": "py", "worker": "debug", "slow": True}]
-    if big:
-        for n in (2, 3, 4):
-            for pre in (False, True):
-                for slow in (False, True):
-                    races.append({"kind": "race", "n": n, "pre": pre, "task": "py", "worker": "debug", "slow": slow})
-        races += [{"kind": "race", "n": 3, "pre": False, "task": "wf", "worker": "debug", "slow": True},
-                  {"kind": "race", "n": 2, "pre": False, "task": "wf", "worker": "cf", "slow": True},
-                  {"kind": "race", "n": 3, "pre": False, "task": "sh", "worker": "debug", "slow": False},
-                  {"kind": "race", "n": 2, "pre": False, "task": "py", "worker": "cf", "slow": True}]  # fmt: skip
+def family_cases(ctx, sizes=(2, 3), pres=PRE_KINDS) -> tuple[list, list]:
+    """the scenario family: pre-existing result on disk in {none, complete ok, complete ERRORED, torn} x 2-3 concurrent
+    submitters x interleavings in which every later submitter passes its first hook point (whatever the current
+    source lets it do without the lock) before the first one populates the job directory"""
+    ils, races = [], []
+    for pre in pres:
+        for n in sizes:
+            ils.append({"kind": "interleaving", "n": n, "pre": pre, "gates": GATES_QUICK, "seed": ctx.rng.randrange(10**9), "plan": "burst"})
+            races.append({"kind": "race", "n": n, "pre": pre, "task": "py", "worker": "debug", "slow": True})
     return ils, races
 
 
-def run_all(ctx, ils, races):
+def gen_cases(ctx, big: bool):
+    sk = jp.safe_skeletons(ctx)
+    allg = all_run_gates(sk) if sk is not None else list(GATES_QUICK)
+    if not big:
+        # quick: the errored / torn members of the family with 2 submitters, one with 3, and random interleavings
+        ils, races = family_cases(ctx, sizes=(2,), pres=("err", "torn"))
+        ils.append({"kind": "interleaving", "n": 3, "pre": "err", "gates": GATES_QUICK, "seed": ctx.rng.randrange(10**9), "plan": "burst"})
+        for n, pre in [(2, ctx.rng.choice(PRE_KINDS)), (3, "none")]:
+            ils.append({"kind": "interleaving", "n": n, "pre": pre, "gates": GATES_QUICK, "seed": ctx.rng.randrange(10**9), "steps": 12})
+        races.append({"kind": "race", "n": 3, "pre": ctx.rng.choice(("none", "ok")), "task": "py", "worker": "debug", "slow": True})
+        return ils, races
+    ils, races = family_cases(ctx)
+    plan = [(2, "none")] * 4 + [(2, "ok")] * 2 + [(2, "err")] * 3 + [(2, "torn")] * 2 + [(3, "none")] * 4 + [(3, "err")] * 3 + [(3, "ok"), (3, "torn")] + [(4, "none")] * 2 + [(4, "err")]
+    for n, pre in plan:
+        gates = GATES_QUICK if ctx.rng.random() < 0.5 else allg
+        ils.append({"kind": "interleaving", "n": n, "pre": pre, "gates": gates, "seed": ctx.rng.randrange(10**9), "steps": 40})
+    for n in (2, 4):
+        for pre in ("none", "err"):
+            races.append({"kind": "race", "n": n, "pre": pre, "task": "py", "worker": "debug", "slow": False})
+    races += [{"kind": "race", "n": 3, "pre": "none", "task": "wf", "worker": "debug", "slow": True},
+              {"kind": "race", "n": 2, "pre": "none", "task": "wf", "worker": "cf", "slow": True},
+              {"kind": "race", "n": 3, "pre": "none", "task": "sh", "worker": "debug", "slow": False},
+              {"kind": "race", "n": 2, "pre": "err", "task": "py", "worker": "cf", "slow": True}]  # fmt: skip
+    return ils, races
+
+
+MAX_STUCK = 2  # after that many replays that could not be driven, the remaining gated replays are not attempted
+
+
+def run_all(ctx, ils, races, seconds: float):
+    """`seconds`: wall-clock budget of the behavioural part (cases that do not fit are skipped and noted)"""
     core.assert_repo_loaded()
+    budget = Budget(seconds)
+    sk = jp.safe_skeletons(ctx)
+    pre_load = pre_lock_load(sk)
     zy = jp.Zygote(ctx.scratch)
+    runs, robs, skipped, stuck = [], [], 0, 0
     try:
         if not getattr(ctx, "_skel_done", False):
-            sk = jp.safe_skeletons(ctx)
             jp.validate_skeleton(ctx, zy, None if sk is None else py_positions(sk["run"]))
             ctx._skel_done = True
-        runs = [run_interleaving(ctx, zy, c, k) for k, c in enumerate(ils)]
-        robs = [run_race(ctx, zy, c, k) for k, c in enumerate(races)]
+        num = getattr(ctx, "_il_n", 0)
+        # races first: they need no gating protocol and decide the property on their own
+        for c in races:
+            num += 1
+            if budget.left() < 20:
+                robs.append(None)
+                skipped += 1
+                continue
+            robs.append(run_race(ctx, zy, c, num, budget))
+        for c in ils:
+            num += 1
+            if budget.left() < 60 or stuck >= MAX_STUCK:
+                runs.append(None)
+                skipped += 1
+                continue
+            r = run_interleaving(ctx, zy, c, num, budget, pre_load)
+            stuck += r["mismatch"] is not None
+            runs.append(r)
+        ctx._il_n = num
     finally:
         zy.close()
-    good = [(c, r) for c, r in zip(ils, runs) if r["mismatch"] is None]
+    if skipped:
+        ctx.count("skipped:budget-or-stuck", skipped)
+        ctx.notes.append(f"{skipped} C10 cases not run (time budget {seconds:.0f} s used up, or {MAX_STUCK} replays could not be driven)")
+    good = [(c, r) for c, r in zip(ils, runs) if r is not None and r["mismatch"] is None]
     ans = ctx.driver("JobProto", [model_query(c, r) for c, r in good]) if good else []
     k = 0
     for c, r in zip(ils, runs):
+        if r is None:
+            continue
         case = {**c, "events": r["events"]}
-        ctx.count(f"interleaving:n={c['n']}/pre={c['pre']}/gates={len(c['gates'])}")
+        ctx.count(f"interleaving:n={c['n']}/pre={norm_pre(c['pre'])}/{c.get('plan', 'random')}")
         ctx.count("events", len(r["events"]))
         if r["mismatch"] is not None:
-            # the processes did not follow the gating protocol: the correspondence does not check on this case
+            # the processes did not follow the gating protocol (observed outcome `stuck`): the correspondence does not
+            # check on this case — a broken tie, reported promptly, never a wait for more watchdogs
             ctx.tie_broken.append({"kind": "gating-protocol", "case": case, "detail": r["mismatch"], "obs": r["obs"]})
             continue
         ok, why = once_ok(c["pre"], r["obs"], c["n"])
@@ -410,11 +547,18 @@ def run_all(ctx, ils, races):
                 impl, model = compare_views(c, r, a)
         k += 1
         ctx.judge(case, impl if impl is not None else r["obs"], model, ok, what=why or "gated interleaving of real submitters",
-                  key=f"il/{c['n']}/{c['pre']}/{len(c['gates'])}/" + ",".join(f"{e['ev'][0]}{e['pid']}" for e in r["events"]))  # fmt: skip
+                  key=f"il/{c['n']}/{norm_pre(c['pre'])}/{len(c['gates'])}/" + ",".join(f"{e['ev'][0]}{e['pid']}" for e in r["events"]))  # fmt: skip
     for c, o in zip(races, robs):
+        if o is None:
+            continue
         ok, why = race_ok(c, o)
-        ctx.count(f"race:{c['task']}/{c['worker']}/n={c['n']}/pre={c['pre']}")
+        ctx.count(f"race:{c['task']}/{c['worker']}/n={c['n']}/pre={norm_pre(c['pre'])}")
         ctx.judge(c, {"execs": o["execs"], "ok": [s["outcome"] for s in o["submitters"]]}, None, ok, what=why or "ungated race")
+
+
+# wall-clock budgets of the behavioural part (the whole check must end well inside a 30 min limit even on a loaded
+# machine and on a tree that breaks the gating protocol)
+BUDGET = {"quick": 420.0, "thorough": 1500.0, "search": 420.0}
 
 
 def correspondence(ctx):
@@ -423,18 +567,19 @@ def correspondence(ctx):
     ils, races = gen_cases(ctx, not ctx.quick)
     p = core.VERIF / "corpus" / "jobproto" / "c10_interleavings.jsonl"
     corpus = [json.loads(line)["case"] for line in p.read_text().splitlines() if line.strip()]
-    run_all(ctx, corpus + ils, races)
+    run_all(ctx, corpus + ils, races, BUDGET["quick" if ctx.quick else "thorough"])
 
 
 def search(ctx):
-    ils, races = gen_cases(ctx, True)
-    run_all(ctx, ils, races)
+    """after a broken proof / tie: the whole scenario family (spec-only where the model is unavailable), bounded"""
+    ils, races = family_cases(ctx)
+    run_all(ctx, ils, races, BUDGET["search"])
 
 
 def replay(ctx, rec):
     c = rec["case"]
     c = {k: v for k, v in c.items() if k != "events"}
     if c.get("kind") == "race":
-        run_all(ctx, [], [c])
+        run_all(ctx, [], [c], 600.0)
     else:
-        run_all(ctx, [c], [])
+        run_all(ctx, [c], [], 600.0)
